@@ -104,6 +104,13 @@ def lim_float(case, v):
     return v / case["den"] if case.get("den") else float(v)
 
 
+def res_xy(case):
+    """(nx, ny) of a histogram2d case: `resolution` is an int or, as documented, {'x': nx, 'y': ny}"""
+    if case.get("res_xy"):
+        return int(case["res_xy"][0]), int(case["res_xy"][1])
+    return int(case["res"]), int(case["res"])
+
+
 def frac_str(f):
     f = Fraction(f)
     return str(f.numerator) if f.denominator == 1 else f"{f.numerator}/{f.denominator}"
@@ -138,7 +145,7 @@ def lean_line(case, mode, rule, margin=False, cells=False):
             line[key] = [float_to_lean(v) for v in a]
     vals = case.get("values", [])
     if case["level"] == "h2d":
-        nx = ny = case["res"]
+        nx, ny = res_xy(case)
         ops = [o or case.get("operation") or "sum" for o in case.get("ops", [])]
         if not vals:
             vals, ops = [[1] * n], [case.get("operation") or "sum"]
@@ -206,6 +213,8 @@ def run_h2d(osy, case, threads=1, capture=None):
         arr = osy.Array(values=v[i].copy(), unit="", name=f"layer{i}")
         layers.append(arr if op is None else osy.core.Layer(arr, operation=op))
     kw = {"resolution": case["res"], "plot": False, "logx": bool(case.get("logx")), "logy": bool(case.get("logy"))}
+    if case.get("res_xy"):
+        kw["resolution"] = {"x": case["res_xy"][0], "y": case["res_xy"][1]}
     if case.get("operation"):
         kw["operation"] = case["operation"]
     for k in ("xmin", "xmax", "ymin", "ymax"):
@@ -291,8 +300,7 @@ def cmp_h2d(case, impl, res):
             return f"impl {'raised ' + impl['raised'] if 'raised' in impl else 'returned'}, expected {res.get('err', 'a result')}"
         return None
     exact = case["lane"] == "exact"
-    n = case["res"]
-    for ax, lg in (("x", case.get("logx")), ("y", case.get("logy"))):
+    for ax, lg, n in zip("xy", (case.get("logx"), case.get("logy")), res_xy(case)):
         want = centres(Fraction(res[ax + "min"]), Fraction(res[ax + "max"]), n, lg)
         got = impl[ax]
         span = float(np.max(np.abs(want))) if len(want) else 1.0
@@ -427,11 +435,13 @@ def gen_h2d(r, npts, lane):
         style = r.choice(["mixed", "mixed", "in", "below1", "edge", "above1", "onebin"])
         e = r.randint(0, 8)
         gen_axis_exact._k = r.randint(0, 63)
-        xlo, xhi, xs = gen_axis_exact(r, res, npts, style)
-        ylo, yhi, ys = gen_axis_exact(r, res, npts, style if style in ("mixed", "onebin") else "in")
-        if r.random() < 0.5:
+        res_pair = [r.choice(RES), r.choice(RES)] if r.random() < 0.12 else None     # resolution={'x': nx, 'y': ny}
+        rx, ry = res_pair or (res, res)
+        xlo, xhi, xs = gen_axis_exact(r, rx, npts, style)
+        ylo, yhi, ys = gen_axis_exact(r, ry, npts, style if style in ("mixed", "onebin") else "in")
+        if r.random() < 0.5 and not res_pair:
             xs, ys, xlo, xhi, ylo, yhi = ys, xs, ylo, yhi, xlo, xhi
-        return {"level": "h2d", "lane": "exact", "den": 2 ** e, "res": res, "xs": xs, "ys": ys, "vden": 16,
+        return {"level": "h2d", "lane": "exact", "den": 2 ** e, "res": res, "res_xy": res_pair, "xs": xs, "ys": ys, "vden": 16,
                 "values": [[r.randint(-64, 640) for _ in range(npts)] for _ in range(nl)], "ops": ops, "operation": operation,
                 "lim": {"xmin": xlo, "xmax": xhi, "ymin": ylo, "ymax": yhi}, "units": units,
                 "quantity_limits": r.random() < 0.15, "tags": ["h2d", "exact", "explicit", style]}
@@ -571,7 +581,7 @@ def kernel_view(case, osy=None):
                     "original_call": {k: case[k] for k in ("res", "logx", "logy", "lim", "units") if k in case}}
         except (KeyError, TypeError, ValueError):
             return None
-    return {"level": "kernel", "lane": case["lane"], "den": case.get("den"), "nx": case["res"], "ny": case["res"],
+    return {"level": "kernel", "lane": case["lane"], "den": case.get("den"), "nx": res_xy(case)[0], "ny": res_xy(case)[1],
             "xmin": case["lim"]["xmin"], "xmax": case["lim"]["xmax"], "ymin": case["lim"]["ymin"], "ymax": case["lim"]["ymax"],
             "xs": case["xs"], "ys": case["ys"], "values": [], "tags": case["tags"]}
 
@@ -648,7 +658,7 @@ def classify(case):
             if any(v is None for v in case["lim"].values()) or case.get("logx") or case.get("logy"):
                 return "histogram2d_limits"
             lims = [lim_float(case, case["lim"][k]) for k in ("xmin", "xmax", "ymin", "ymax")]
-            nx = ny = case["res"]
+            nx, ny = res_xy(case)
         x, y = float(coords_np(case, "xs")[0]), float(coords_np(case, "ys")[0])
         if not (math.isfinite(x) and math.isfinite(y)):
             return "nonfinite_coordinate"
@@ -787,8 +797,8 @@ def shrink_threads(osy, pat, t):
             th = cand
             break
     last = loses(n, th, tries=6) or (None, None)
-    while n > 1000:
-        r = loses(n // 2, th)
+    while n > 20000:           # keep enough points for the loss to show up in nearly every run
+        r = loses(n // 2, th, tries=2)
         if not r:
             break
         n //= 2
@@ -881,7 +891,7 @@ def run(ctx):
         if n >= 1 and ("err" in ans or int(spec["inrange"]) < n or c["level"] == "h2d"):
             out.nontrivial.add(case_hash({k: v for k, v in c.items() if k != "tags"}) if n <= 3000 else case_hash([c["tags"], n, c["xs"][:50]]))
         if len(out.samples) < 4 and 1 <= n <= 7:
-            out.samples.append({"case": c, "impl": impl, "model": model, "spec": spec})
+            out.samples.append({"case": c, "impl": trim(impl), "model": trim(model), "spec": trim(spec)})
         dm = diff_of(c, impl, model)
         ds = diff_of(c, impl, spec)
         if ds:
@@ -892,7 +902,8 @@ def run(ctx):
                 bare = dict(c, xs=[], ys=[], values=[], ops=[], operation=None)
                 if all(v is not None for v in c["lim"].values()) and "raised" in impl_of(osy, bare):
                     mini = bare
-                cls = "limit_given_as_quantity" if c.get("quantity_limits") else "raises_" + impl["raised"]
+                cls = ("resolution_given_as_dict" if c.get("res_xy") else
+                       "limit_given_as_quantity" if c.get("quantity_limits") else "raises_" + impl["raised"])
             else:
                 try:
                     mini = shrink_points(osy, c, rule)
@@ -936,7 +947,7 @@ def grid_text(c):
     if c["level"] == "kernel":
         return (f"x [{lim_float(c, c['xmin'])}, {lim_float(c, c['xmax'])}) / {c['nx']}, "
                 f"y [{lim_float(c, c['ymin'])}, {lim_float(c, c['ymax'])}) / {c['ny']}")
-    return f"limits { {k: lim_float(c, v) for k, v in c['lim'].items()} } resolution {c['res']}"
+    return f"limits { {k: lim_float(c, v) for k, v in c['lim'].items()} } resolution {c.get('res_xy') or c['res']}"
 
 
 def trim(d):
@@ -966,8 +977,9 @@ def replay(ctx, path):
         pats = [p for p in thread_patterns(ctx) if p["pattern"] == case.get("seed_pattern", case.get("pattern"))]
         pat = subcase(pats[0], list(range(min(case["n"], len(pats[0]["xs"])))))
         one = run_kernel(osy, pat, threads=1)
+        run_kernel(osy, pat, threads=case["threads"])          # warm-up: the first parallel call starts the thread pool
         bad = None
-        for _ in range(8):
+        for _ in range(20):
             impl = run_kernel(osy, pat, threads=case["threads"])
             if impl["counts"] != one["counts"]:
                 bad = (sum(impl["counts"]), sum(one["counts"]))
@@ -976,7 +988,7 @@ def replay(ctx, path):
             print(f"replay: {case['threads']} threads counted {bad[0]}, one thread counts {bad[1]}")
             print(f"VIOLATION property=C05 replay={path}")
             return 1
-        print("replay: 8 multi-threaded runs agree with the single-threaded run")
+        print("replay: 20 multi-threaded runs agree with the single-threaded run")
         return 0
     threads = case.pop("threads", 1) if isinstance(case, dict) else 1
     if "n" in case and case.get("level") == "h2d" and "truncated_from" in case:
@@ -986,6 +998,11 @@ def replay(ctx, path):
     res = run_geom([lean_line(case, "spec", src["rule"], margin=case["lane"] != "exact")])[0]
     impl = impl_of(osy, case, threads)
     d = diff_of(case, impl, res)
+    for _ in range(10 if threads > 1 else 0):       # a schedule-dependent loss may need several runs
+        if d:
+            break
+        impl = impl_of(osy, case, threads)
+        d = diff_of(case, impl, res)
     print("impl:", json.dumps(trim(impl))[:600])
     print("spec:", json.dumps(trim(res))[:600])
     if d:
